@@ -129,11 +129,35 @@ def run_job(args):
             "unanalysable": dedup_unanalysable(ex.unanalysable),
             "verdicts": verdict_histogram(ex.results),
             "instances": sorted(set(visited_instances(ex, prog))),
+            "sample_paths": sample_paths(ex),
         })
     except Exception as e:  # noqa
         out["error"] = "%s: %s" % (type(e).__name__, e)
         out["traceback"] = traceback.format_exc()[-3000:]
     out["wall_s"] = round(time.time() - t0, 2)
+    return out
+
+
+def sample_paths(ex, n=6):
+    """A few explored abstract paths written out: byte classes consumed (reference state:class),
+    environment choices, verdict."""
+    out = []
+    step = max(1, len(ex.results) // n)
+    for r in ex.results[::step][:n]:
+        mon = r.mon
+        hist = list(getattr(mon, "hist", ()))[-24:]
+        d = r.done
+        try:
+            if d[0] == "enum" and d[1] == 1:
+                v = "Err"
+            elif d[0] == "enum" and d[2] and d[2][0][0] == "enum":
+                v = "Complete" if d[2][0][1] == 0 else "Partial"
+            else:
+                v = "returned"
+        except Exception:
+            v = "returned"
+        out.append({"consumed_classes": hist, "choices": r.trace[-8:], "options": {k: val for k, val in r.env.items() if k.startswith("cfg:")},
+                    "end_of_input_observed": bool(r.eof), "verdict": v})
     return out
 
 
